@@ -9,7 +9,7 @@
 //   opt <kind> <k|i|a> <tol|-> <maxeval> <extra>
 //        kind : gss <lo> <hi> | brent <lo> <hi> <out|in> | nback <slope> <test> | newton1 | simple
 //               | snewton | powell | simplex | cg | bfgs | meta <full|step> [<n>]   (n: number of progressive steps, default 2)
-//   init <k> {<index> <value> <con>}*k       con : N | I <lo|*> <hi|*> <inclLo> <inclHi>
+//   init <k> {<index> <value> <con> [P <precision>]}*k       con : N | I <lo|*> <hi|*> <inclLo> <inclHi>   (precision: default 0)
 //   step | optimize
 //   setmax <n>                                setMaximumNumberOfEvaluations(n) on the optimiser that exists
 //   clone                                     the optimiser is replaced by its clone() (the step listener is attached again:
@@ -278,7 +278,12 @@ struct Machine {
       size_t k = toU(t.at(i++));
       std::string a = guarded([&]() -> std::string {
         ParameterList pl;
-        for (size_t j = 0; j < k; ++j) { size_t ix = toU(t.at(i++)); double v = hexToDouble(t.at(i++)); auto c = con(t, i); pl.addParameter(Parameter(pname(ix), v, c)); }
+        for (size_t j = 0; j < k; ++j) {
+          size_t ix = toU(t.at(i++)); double v = hexToDouble(t.at(i++)); auto c = con(t, i);
+          double prec = 0;
+          if (i < t.size() && t[i] == "P") { prec = hexToDouble(t.at(i + 1)); i += 2; }
+          pl.addParameter(Parameter(pname(ix), v, c, prec));
+        }
         opt->init(pl);
         return "-";
       });
